@@ -13,6 +13,7 @@ from __future__ import annotations
 
 import copy
 import json
+import os
 
 from vsim import faults
 from vsim import pool as cpool
@@ -38,7 +39,7 @@ def gen(run_seed: int, tier: str) -> dict:
     nh = 4 + t.draw(6, "healthy")
     world = cpool.gen_world(t, nh)
     offenders = []
-    allow_blowup = t.chance(1, 3, "blowup_run")
+    allow_blowup = t.chance(1, 3, "blowup_run") or bool(os.environ.get("VSIM_C11_FORCE_BLOWUP"))
     for i in range(1 + t.draw(3, "noff") if not t.chance(1, 2, "one") else 1):
         lang = t.pick(cpool.LANGS + ["python", "unknown"], "off.lang")
         if t.chance(1, 6, "empty_base"):
@@ -51,7 +52,7 @@ def gen(run_seed: int, tier: str) -> dict:
         rel = (d + "/" if d else "") + f"offender_{i}{ext}"
         fs, data = [], base.encode()
         for _ in range(1 + t.draw(4, "nfaults") if not t.chance(1, 2, "single") else 1):
-            f = faults.draw_fault(t, data, lang, allow_blowup)
+            f = faults.draw_fault(t, data, lang, allow_blowup, force_blowup=bool(os.environ.get("VSIM_C11_FORCE_BLOWUP")))
             fs.append(f)
             data = faults.apply(f, data, lang)
         offenders.append({"rel": rel, "lang": lang, "base": base, "faults": fs})
